@@ -24,7 +24,7 @@ def close(x, y):
 class Fold(Contract):
     target = f"{VREL}::HalfRotobjVoronoi._calculate_N_N_array"
     property_ids = ("C04",)
-    expected = ("assert:antipode-map-total", "assert:fold-semantics")
+    expected = ("assert:antipode-map-total", "assert:fold-semantics", "post:result-is-the-folded-upper-left-block")
 
     def setup(self, V, variant):
         ctx = V.ctx
@@ -133,11 +133,44 @@ class Fold(Contract):
             i, c = z3.Int("i4"), z3.Int("c4")
             ctx.oblige("assert:fold-semantics", "post", z3.Implies(z3.And(i >= 0, i < 2 * N, c >= 0, c < 2 * N),
                                                                  as_real(M.buf.fn(i, c)) == self.folded(env, AF, i, c)))
-            raise PathEnd()
-        return {"opp_ind": on_opp_ind, "available_indices": on_available}
+            # (p3) from here on the folded matrix is referred to by its proven closed form (ghost simplification justified by the
+            # assertion just discharged for arbitrary i, c): keeps the terms of the extraction step small
+            frame.vars["adj_matrix"] = Mat(2 * N, 2 * N, lambda a, b: Num(self.folded(env, AF, zint(a), zint(b)), False), elem="real")
+
+        def prefix_mask(which):
+            def hook(interp, frame, val):
+                # valid_rows / valid_columns: "no NaN in this row / column" is, for the matrix built above, exactly "index < N"
+                ctx = interp.ctx
+                N = ctx.c04["N"]
+                if not (isinstance(val, Vec) and val.elem == "bool"):
+                    return
+                k = z3.Int(ctx.fresh("k"))
+                ctx.binder_stack.append([])
+                try:
+                    vk = vget(ctx, val, k)
+                finally:
+                    ctx.binder_stack.pop()
+                vz = vk.z if not isinstance(vk.z, bool) else z3.BoolVal(vk.z)
+                ctx.oblige(f"assert:{which}-without-NaN-are-exactly-the-upper-half", "post",
+                           z3.And(zint(val.length) == 2 * N, z3.Implies(z3.And(k >= 0, k < 2 * N), vz == (k < N))))
+                simple = Vec(2 * N, lambda t: Bool(zint(t) < N), kind="ndarray", elem="bool")
+                simple.prefix_upto = N
+                frame.vars[which] = simple
+            return hook
+        return {"opp_ind": on_opp_ind, "available_indices": on_available, "valid_rows": prefix_mask("valid_rows"),
+                "valid_columns": prefix_mask("valid_columns")}
 
     def post(self, V, variant, env, outcome):
-        V.oblige("post:prefix-contract-ended-early", z3.BoolVal(outcome[0] == "return"))
+        ctx = V.ctx
+        if outcome[0] != "return":
+            V.oblige(f"post:no-exception[{outcome[1]}]", False)
+            return
+        res = outcome[1]
+        N, AF = env["N"], env["AF"]
+        i, c = z3.Int("i4p"), z3.Int("c4p")
+        V.oblige("post:shape-N-by-N", z3.And(zint(res.nrows) == N, zint(res.ncols) == N))
+        V.oblige("post:result-is-the-folded-upper-left-block", z3.Implies(z3.And(i >= 0, i < N, c >= 0, c < N),
+                                                                        as_real(res.dense(ctx, i, c)) == self.folded(env, AF, i, c)))
 
 
 class UpperIndicesAssumed(Contract):
